@@ -297,9 +297,11 @@ func c20LateBatch(cl *sim.Cluster, client gohbase.Client, table string, pi int) 
 		return nil // the layout has no two servers to span
 	}
 	mk := func(s string) string { return fmt.Sprintf("mklate%d%s", pi, s) }
+	cl.Lock()
 	for _, m := range []string{mk("a"), mk("b1"), mk("b2")} {
 		cl.Script[m] = []sim.Outcome{{Kind: "hold"}}
 	}
+	cl.Unlock()
 	ctx := context.Background()
 	var calls []hrpc.Call
 	for _, x := range []struct {
